@@ -14,7 +14,7 @@ use serde_json::{json, Value};
 pub const DEF: PropDef = PropDef {
     id: "C17",
     level: "exploration",
-    rule: "all expression trees (built directly as AST values, so every tree shape incl. those text cannot spell) with <=3 leaves over the full leaf alphabet {0,1,2.5,3,1e308, two strings, true, null, mysterious, variable, pronoun, subscript, call, roll, and roll / subscript applied to literals} and constructors {+ - * / with single and 2-element list operands, <, is, and, unary - and not on leaves}, and all trees with <=4 leaves over the numeric core {0,1,2.5,1e308,x,-1,-x} (thorough: also 5 leaves over {0,2.5,x}) with + - * / and list operands, and all trees with <=3 leaves over 12 boundary constants {0,-0,1,0.1,3,5e-324,2^32,2^53+1,f64::MAX,1e-308,-(0),x}; plus poetic literals as assignment right-hand sides; each expression is given to NumericConstantFolder and SimpleStringConstantFolder and evaluated by the real ProduceVal under three preludes that bind the variables differently; oracle: folder Ok(v) => evaluation yields exactly v (bitwise, NaN by class) under every prelude; folder must be Ok for every tree made only of number leaves, unary minus and + - * /; must be Err for every tree containing a read; non-trivial = expressions with an operator; distinct = distinct tree",
+    rule: "all expression trees (built directly as AST values, so every tree shape incl. those text cannot spell) with <=3 leaves over the full leaf alphabet {0,1,2.5,3,1e308, four strings (plain, empty, with CR LF and line feed, with tab / backslash / non-ASCII / outer blanks), true, null, mysterious, variable, pronoun, subscript, call, roll, and roll / subscript applied to literals} and constructors {+ - * / with single and 2-element list operands, <, is, and, unary - and not on leaves}, and all trees with <=4 leaves over the numeric core {0,1,2.5,1e308,x,-1,-x} (thorough: also 5 leaves over {0,2.5,x}) with + - * / and list operands, and all trees with <=3 leaves over 12 boundary constants {0,-0,1,0.1,3,5e-324,2^32,2^53+1,f64::MAX,1e-308,-(0),x}; plus poetic literals as assignment right-hand sides; each expression is given to NumericConstantFolder and SimpleStringConstantFolder and evaluated by the real ProduceVal under three preludes that bind the variables differently; oracle: folder Ok(v) => evaluation yields exactly v (bitwise, NaN by class) under every prelude; folder must be Ok for every tree made only of number leaves, unary minus and + - * /; must be Err for every tree containing a read; non-trivial = expressions with an operator; distinct = distinct tree",
     assumptions: &["evaluation through the public ProduceVal visitor on an environment prepared by executing the prelude", "the reference predicate 'constant' / 'contains a read' is syntactic on the tree"],
     build,
     exhaustive: true,
@@ -36,6 +36,9 @@ fn full_leaves() -> Vec<Expr> {
         num(1e308),
         Expr::Prim(Prim::Lit(Lit::Str("s".into()))),
         Expr::Prim(Prim::Lit(Lit::Str("".into()))),
+        // strings holding what a normalising step would touch: CR LF, tab, backslash, non-ASCII
+        Expr::Prim(Prim::Lit(Lit::Str("a\r\nb\n".into()))),
+        Expr::Prim(Prim::Lit(Lit::Str(" é\t\\😀 ".into()))),
         Expr::Prim(Prim::Lit(Lit::Bool(true))),
         Expr::Prim(Prim::Lit(Lit::Null)),
         Expr::Prim(Prim::Lit(Lit::Mysterious)),
